@@ -182,6 +182,12 @@ void run_typed(const Execution &ex) {
             }
             bool alias = back ? (r == &me->back()) : (r == &me->front());
             extra = ",\"alias\":" + std::string(alias ? "true" : "false") + ",\"refval\":" + std::to_string(Val<T>::get(*r));
+        } else if (op == "PushBackOfFront") {   // the argument refers to the very element that gets discarded
+            if (i % 2 == 0) me->push_back(me->front());
+            else me->emplace_back(me->front());
+        } else if (op == "PushFrontOfBack") {
+            if (i % 2 == 0) me->push_front(me->back());
+            else me->emplace_front(me->back());
         } else if (op == "PopBack") {
             T v = me->pop_back();
             ret = Val<T>::get(v);
